@@ -52,3 +52,67 @@ def unit_get_token_charge(twin=False):
     t = text_of(UTIL, fn)
     r.add("callee_is_told_the_true_capacity(get_charge(charge,MAX_LENGTH,..))", DISCHARGED if "get_charge(charge,MAX_LENGTH," in t else FAILED, "syntactic", 0, "", kind="structural")
     return r
+
+
+SPREAD = "src/phreeqcpp/spread.cpp"
+
+
+def unit_spread_row_cells(twin=False):
+    """Phreeqc::spread_row_to_solution: a SOLUTION_SPREAD data row may be shorter than the heading row.  Every cell of `data` (type_vector[i],
+    str_vector[i]) that the function reads through an index is read only when i is inside the row: 0 <= i < data->count.
+    Hypothesis (representation invariant of spread_row, established by string_to_spread_row): count == type_vector.size() == str_vector.size().
+    Regions: the `number`-column decision after the search loop, and one arbitrary pass of the column loop."""
+    q = "Phreeqc::spread_row_to_solution"
+    fn = A.find_function(SPREAD, q)
+    r = U.new_unit("C08.spread_row_to_solution.cells_of_a_short_data_row_are_not_read", SPREAD, q, fn)
+    body = A.body_of(fn)
+    # the decision: first IfStmt (in source order) whose condition reads data->type_vector
+    def reads_data_cell(n):
+        for y in A.walk(n):
+            if y.get("kind") == "MemberExpr" and y.get("name") in ("type_vector", "str_vector"):
+                b = strip(y["inner"][0])
+                if b.get("kind") == "DeclRefExpr" and b.get("referencedDecl", {}).get("name") == "data":
+                    return True
+        return False
+    # a decision = an `if` statement (child of a block) whose condition reads a cell of `data`, together with the statements directly behind it
+    # that read cells of `data` (they rely on the decision having left the block otherwise)
+    regions = []
+    for blk in A.walk(body):
+        if blk.get("kind") != "CompoundStmt":
+            continue
+        ch = blk.get("inner", [])
+        for j, x in enumerate(ch):
+            if x.get("kind") == "IfStmt" and reads_data_cell(x["inner"][0]):
+                nodes = [x]
+                for y in ch[j + 1:]:
+                    if y.get("kind") != "IfStmt" and reads_data_cell(y):
+                        nodes.append(y)
+                    else:
+                        break
+                regions.append(nodes)
+    if not regions:
+        raise Undecided("spread_row_to_solution: no decision reading a cell of `data` found")
+    data = tm.sym("L_data", "P")
+    nchecked = 0
+    for k, nodes in enumerate(regions):
+        c = ctx(functional=())
+        c.stl.check_bounds = True
+        f, ex, fin, info = region(SPREAD, q, nodes, c)
+        side = list(c.stl.side)
+        for what, pc, ob in side:
+            txt = repr(ob)
+            if "L_data" not in txt:
+                continue
+            nchecked += 1
+            s0 = fin[0] if fin else None
+            cnt = tm.select(tm.sym("H0.count:I", ("A", "P", "I")), data)
+            hyp = []
+            for vec in ("type_vector", "str_vector"):
+                hyp.append(tm.eq(tm.select(tm.sym("H0.#vsize:I", ("A", "P", "I")), tm.app("fld:" + vec, (data,), "P")), cnt if not twin else cnt - tm.num(1, "I")))
+            i = tm.sym("L_i", "I")
+            hyp.append(tm.le(tm.num(0, "I"), i))
+            U.discharge_valid(r, "decision%d.%s.index_inside_the_row#%d" % (k, re.sub(r"[^A-Za-z_]+", "_", str(what))[:40], nchecked), list(pc) + hyp, ob)
+    r.add("reach.indexed_reads_of_data_cells", DISCHARGED if nchecked >= 2 else UNDECIDED, "symex", 0, str(nchecked), kind="vacuity")
+    r.assumptions += ["representation invariant of spread_row: count == type_vector.size() == str_vector.size() (string_to_spread_row, not under this contract)",
+                      "the column index is non-negative (loop counters start at 0)", "std::vector::operator[] is in bounds iff 0 <= index < size()"]
+    return r
